@@ -39,7 +39,7 @@ func verifServers() veriflib.OrdMap {
 		},
 		Set:      func(k string, v int) { m.Set(k, mk(v)) },
 		SetToTop: func(k string, v int) { m.SetToTop(k, mk(v)) },
-		Update:   func(k string, v int) { m.Update(k, func(*Server) *Server { return mk(v) }) },
+		Update:   func(k string, v int) { m.Update(k, func(*Server) *Server { verifrt.Assert("C16.ordmap.update-callback-under-write-lock", verifrt.WriteLocked()); return mk(v) }) },
 		Get: func(k string) (int, bool) {
 			o, ok := m.Get(k)
 			return tag[o], ok
@@ -94,7 +94,7 @@ func verifTags() veriflib.OrdMap {
 		},
 		Set:      func(k string, v int) { m.Set(TagName(k), mk(v)) },
 		SetToTop: func(k string, v int) { m.SetToTop(TagName(k), mk(v)) },
-		Update:   func(k string, v int) { m.Update(TagName(k), func(*Tag) *Tag { return mk(v) }) },
+		Update:   func(k string, v int) { m.Update(TagName(k), func(*Tag) *Tag { verifrt.Assert("C16.ordmap.update-callback-under-write-lock", verifrt.WriteLocked()); return mk(v) }) },
 		Get: func(k string) (int, bool) {
 			o, ok := m.Get(TagName(k))
 			return tag[o], ok
@@ -143,7 +143,7 @@ func verifUserTypes() veriflib.OrdMap {
 		},
 		Set:      func(k string, v int) { m.Set(k, mk(v)) },
 		SetToTop: func(k string, v int) { m.SetToTop(k, mk(v)) },
-		Update:   func(k string, v int) { m.Update(k, func(*UserType) *UserType { return mk(v) }) },
+		Update:   func(k string, v int) { m.Update(k, func(*UserType) *UserType { verifrt.Assert("C16.ordmap.update-callback-under-write-lock", verifrt.WriteLocked()); return mk(v) }) },
 		Get: func(k string) (int, bool) {
 			o, ok := m.Get(k)
 			return tag[o], ok
@@ -192,7 +192,7 @@ func verifUserRules() veriflib.OrdMap {
 		},
 		Set:      func(k string, v int) { m.Set(k, mk(v)) },
 		SetToTop: func(k string, v int) { m.SetToTop(k, mk(v)) },
-		Update:   func(k string, v int) { m.Update(k, func(*UserRule) *UserRule { return mk(v) }) },
+		Update:   func(k string, v int) { m.Update(k, func(*UserRule) *UserRule { verifrt.Assert("C16.ordmap.update-callback-under-write-lock", verifrt.WriteLocked()); return mk(v) }) },
 		Get: func(k string) (int, bool) {
 			o, ok := m.Get(k)
 			return tag[o], ok
@@ -249,7 +249,7 @@ func verifInteractions() veriflib.OrdMap {
 		},
 		Set:      func(k string, v int) { m.Set(key(k), mk(v)) },
 		SetToTop: func(k string, v int) { m.SetToTop(key(k), mk(v)) },
-		Update:   func(k string, v int) { m.Update(key(k), func(Interaction) Interaction { return mk(v) }) },
+		Update:   func(k string, v int) { m.Update(key(k), func(Interaction) Interaction { verifrt.Assert("C16.ordmap.update-callback-under-write-lock", verifrt.WriteLocked()); return mk(v) }) },
 		Get: func(k string) (int, bool) {
 			o, ok := m.Get(key(k))
 			if !ok {
